@@ -29,6 +29,7 @@ def plan(tier, seed):
     shards = [{"part": "vectors", "k": k, "of": 4} for k in range(4)]
     shards += [{"part": "dates", "seed": seed}]
     shards += [{"part": "reject", "seed": seed, "k": k, "of": 6} for k in range(6)]
+    shards += [{"part": "qbins", "seed": seed, "k": k, "tier": tier} for k in range(2)]
     n = 25 if tier == "quick" else 700
     shards += [{"part": "semantic", "seed": seed, "k": k, "n": n} for k in range(9)]
     return shards
@@ -543,8 +544,16 @@ def run_semantic(desc, ctx):
             ctx.violation("list-locations", "--list-locations printed %s, reference %s" % (got, locs), {"ds": ds, "opts": opts})
 
 
+def run_qbins(desc, ctx):
+    """-b as the help text defines it, for the one score that applies it to QUANTILE forecasts (observations tying with the
+    quantile values decide): shared with C07's machinery, in two option orders."""
+    from vmon.props import c07
+    c07.run_quantile_events(desc, ctx)
+    ctx.count("quantile_bin_semantics_runs")
+
+
 def run_shard(desc, ctx):
-    {"vectors": run_vectors, "dates": run_dates, "reject": run_reject, "semantic": run_semantic}[desc["part"]](desc, ctx)
+    {"vectors": run_vectors, "dates": run_dates, "reject": run_reject, "semantic": run_semantic, "qbins": run_qbins}[desc["part"]](desc, ctx)
 
 
 def replay(case, ctx):
